@@ -147,6 +147,10 @@ def run(tier, seed):
         outp = os.path.join(tmp, "out_%d_%s.raw" % (j["sid"], j["flt"].replace(":", "_")))
         if j["out"] == "file":
             args += ["-o", outp]
+            if j["sid"] % 2 == 1:
+                # the destination already exists and holds MORE bytes than the run will write: the output must replace it
+                with open(outp, "wb") as f:
+                    f.write(b"\xA5" * (len(j["data"]) + 4096))
         if j["inp"] == "file":
             rc, so, se, _ = core.run_cli([j["path"]] + args)
         else:
